@@ -160,16 +160,29 @@ def _start_search(ctx, strength):
 
 
 def correspond(ctx):
+    import time
     strength = "thorough" if ctx.tier == "thorough" else "quick"
+    t_enter = time.time()
+    ctx.note("stage times: correspond entered %.0f s after start (regen + make under the shared lock + coqc props)" % (t_enter - ctx.t0))
     _start_search(ctx, strength)
     res = ctx.run_impl("c09_impl.py", {"strength": strength, "parts": ["corr"]}, timeout=3000)
     if res is None:
         return
     ctx.impl = res
     groups = res["groups"]
-    n, bad = S.run_groups(ctx, groups, "c09")
-    hyp = _grid_hypotheses(ctx, groups)
-    nref = _reference_cases(ctx, res["reference"])
+    t1 = time.time()
+    import threading
+    side = {}
+    th = [threading.Thread(target=lambda: side.__setitem__("hyp", _grid_hypotheses(ctx, groups))),
+          threading.Thread(target=lambda: side.__setitem__("nref", _reference_cases(ctx, res["reference"])))]
+    for t in th:
+        t.start()
+    n, bad = S.run_groups(ctx, groups, "c09", parallel=8)
+    for t in th:
+        t.join()
+    hyp, nref = side.get("hyp", {}), side.get("nref", 0)
+    ctx.note("stage times: harness dump %.0f s, model evaluation in Coq (cases, grid hypotheses, reference; concurrent) "
+             "%.0f s" % (t1 - t_enter, time.time() - t1))
     ctx.corr["evaluations"] = n + nref + len(hyp)
     nontrivial = 0
     hist = {"grids": hyp}
@@ -192,9 +205,9 @@ def correspond(ctx):
     ctx.corr["distinct_nontrivial"] = nontrivial
     ctx.corr["histogram"] = hist
     ctx.corr["rule"] = ("function spaces built through bempp_cl.api.function_space on the non-empty sub-complexes of an "
-                        "octahedron (quick: a seeded half, thorough: all 255) and of a 2x2 screen (quick: a third, thorough: "
+                        "octahedron (quick: a seeded third, thorough: all 255) and of a 2x2 screen (quick: a quarter, thorough: "
                         "all 255) as support_elements x {P1, RWG} "
-                        "x 4 flag combinations, a seeded sixth (thorough: all) for DP0/DP1/SNC, segment subsets of five "
+                        "x 4 flag combinations, a seeded eighth (thorough: all) for DP0/DP1/SNC, segment subsets of five "
                         "multi-domain grids with swapped normals, a non-manifold fan, random soups; compared: local2global, "
                         "local_multipliers, support, normal_multipliers, global_dof_count, the builder's own dof count, "
                         "global2local, color_map, colour-sorted elements and indexptr; non-trivial = more than one global dof")
